@@ -81,7 +81,15 @@ func (l *naiveCreator) CreateWithTTL(ctx context.Context, key []byte, val []byte
 			}
 
 			if isTombstone && prevRevision < revision {
-				return l.update(ctx, revisionKey, objectKey, val, revisionBytes, oldRev, ttl)
+				err = l.update(ctx, revisionKey, objectKey, val, revisionBytes, oldRev, ttl)
+				if errors.Is(err, storage.ErrCASFailed) {
+					// the deleted key's revision record can be compacted between the failed create and
+					// this update: the key is then absent, nobody else has written it, just create again
+					if _, getErr := l.store.Get(ctx, revisionKey); errors.Is(getErr, storage.ErrKeyNotFound) {
+						return l.create(ctx, revisionKey, objectKey, val, revisionBytes, ttl)
+					}
+				}
+				return err
 			}
 			return storage.ErrCASFailed
 		}
